@@ -150,6 +150,7 @@ func (c *Ctx) Violate(clause, kind, sig string, input any, expected, observed st
 	c.res.Violations = append(c.res.Violations, proto.Violation{
 		Property: c.Prop, Clause: clause, Kind: kind, Sig: sig, Input: input,
 		Expected: expected, Observed: observed, Build: c.Build,
+		CaseIndex: c.Index(), Tier: c.Tier, Seed: c.Seed,
 	})
 }
 
@@ -176,6 +177,7 @@ func main() {
 	}
 	if deadlineS > 0 {
 		c.deadline = time.Now().Add(time.Duration(deadlineS) * time.Second)
+		exploreDeadline = c.deadline
 	}
 	if journal != "" {
 		f, err := os.Create(journal)
